@@ -26,7 +26,7 @@ const PROPS: &[PropSpec] = &[
     PropSpec { id: "C05", engine: "dsim", profile: "dml", level: "exploration", quick_runs: 2000, thorough_runs: 40000, also: &["C06", "C09", "C10", "C11", "C12"] },
     PropSpec { id: "C06", engine: "dsim", profile: "fail", level: "exploration", quick_runs: 2000, thorough_runs: 40000, also: &[] },
     PropSpec { id: "C07", engine: "dsim", profile: "txn", level: "exploration", quick_runs: 2000, thorough_runs: 40000, also: &[] },
-    PropSpec { id: "C08", engine: "dsim", profile: "iso", level: "exploration", quick_runs: 1500, thorough_runs: 30000, also: &[] },
+    PropSpec { id: "C08", engine: "dsim", profile: "iso", level: "exploration", quick_runs: 1500, thorough_runs: 30000, also: &["C07"] },
     PropSpec { id: "C09", engine: "dsim", profile: "cons", level: "exploration", quick_runs: 2000, thorough_runs: 40000, also: &["C06", "C07"] },
     PropSpec { id: "C10", engine: "dsim", profile: "index", level: "exploration", quick_runs: 1500, thorough_runs: 30000, also: &[] },
     PropSpec { id: "C11", engine: "dsim", profile: "values", level: "exploration", quick_runs: 1500, thorough_runs: 30000, also: &[] },
